@@ -65,13 +65,6 @@ impl MemQueue {
         self.start_position.checked_sub(1)
     }
 
-    /// A queue whose last record is at `u64::MAX` has no position left.
-    pub(crate) fn is_full(&self) -> bool {
-        self.record_metas
-            .last()
-            .is_some_and(|record| record.position == u64::MAX)
-    }
-
     /// Returns the last record stored in the queue.
     pub fn last_record(&self) -> Option<Record<'_>> {
         self.record_metas.last().map(|record| Record {
@@ -99,7 +92,8 @@ impl MemQueue {
         payload: &[u8],
     ) -> Result<(), AppendError> {
         let next_position = self.next_position();
-        if target_position < next_position || self.is_full() {
+        // u64::MAX is not a valid position: `next_position` could not follow it.
+        if target_position < next_position || target_position == u64::MAX {
             return Err(AppendError::Past);
         }
 
